@@ -200,6 +200,16 @@ func Generate(p *Profile, seed uint64) *Scenario {
 		if g.Bool() {
 			sc.Steps = append(sc.Steps, Step{Op: "block", Dels: picks(1 + g.Intn(30)), Adds: g.Intn(10), Seed: g.Next()}, Step{Op: "tick", Dt: 3})
 		}
+		if g.Pct(50) {
+			// a block that deletes every other leaf of a long stretch: thousands of
+			// targets, more than ten thousand computed parents in one proof
+			k := 5000 + g.Intn(3000)
+			ev := make([]int, 0, k)
+			for i := 2 * (k - 1); i >= 0; i -= 2 {
+				ev = append(ev, i)
+			}
+			sc.Steps = append(sc.Steps, Step{Op: "block", Dels: ev, Adds: g.Intn(4), Seed: g.Next()}, Step{Op: "tick", Dt: 3})
+		}
 		if g.Pct(40) {
 			sc.Steps = append(sc.Steps, Step{Op: "tip", Pick: 1 + g.Intn(2)}, Step{Op: "tick", Dt: 3})
 		}
